@@ -967,8 +967,9 @@ class TypedValue(Value):
             suffix = " (literal only)"
         else:
             suffix = ""
-        if self._type_object is not None:
-            return f"{self._type_object}{suffix}"
+        # Do not use the cached _type_object here: it is only filled in once the value
+        # has been through a compatibility check, so the text would depend on what
+        # happened to this (possibly shared) object earlier.
         return stringify_object(self.typ) + suffix
 
 
